@@ -41,7 +41,7 @@ BOUNDS = {
 }
 OUTSIDE = ["tables (conn, elements, nodes, dof connectivity) and the div/mod index functions beyond the enumerated / "
            "bit-vector bounds", "nel and nnodes as computed by __init__ for sizes beyond the enumerated tables",
-           "user-overridden node_numbering", "IEEE rounding of positions and shape functions",
+           "user-overridden node_numbering other than the documented table reversed between two evaluations (shape items)", "IEEE rounding of positions and shape functions",
            "int64 wrap-around of node numbers (sizes are far below it)", "DomainDefinition.plot / update_plot"]
 ASSUMPTIONS = ["integer index arithmetic modelled by mathematical integers (z3 Int), or by 24-bit unsigned bit-vectors "
                "whose no-wrap-around side conditions are discharged as obligations of kind 'bv-no-wraparound'",
@@ -81,6 +81,7 @@ def items(tier):
         out.append(dict(kind="shape", id="shape-%dd" % dim, dim=dim))
         out.append(dict(kind="shape", id="shape-%dd-integer-sizes" % dim, dim=dim, int_sizes=True))
         out.append(dict(kind="shape", id="shape-%dd-derivative-first" % dim, dim=dim, der_first=True))
+        out.append(dict(kind="shape", id="shape-%dd-table-reversed-between-evaluations" % dim, dim=dim, renumber=True))
     return out
 
 
@@ -390,8 +391,17 @@ def sc_shape(V, P, cfg):
         V.assume(xa <= size[a] / 2)
         xb.append(xa)
     posb = np.array(xb, dtype=object if V.symbolic else float)
+    perm = list(range(en))
+    if cfg.get("renumber"):
+        # the public table node_numbering replaced (here: reversed) between two evaluations on one domain object: shape
+        # functions, derivatives and connectivity all read the LIVE table, so the second results come in the new local order
+        orig_numbering = d.node_numbering
+        d.node_numbering = [list(r) for r in reversed(orig_numbering)]
+        perm = [en - 1 - l for l in range(en)]
     Nb = d.eval_shape_fun(posb)
     dNb = d.eval_shape_fun_der(posb)
+    if cfg.get("renumber"):
+        d.node_numbering = orig_numbering
     if V.symbolic:
         # finite values on the whole closed element (faces, edges and nodes included): no divisor may vanish there
         P.no_division_by_zero("N,dN finite on the closed element (no division by zero)", n_def, kind="finite")
@@ -428,9 +438,9 @@ def sc_shape(V, P, cfg):
     K.eq("sum N == 1", tot, 1, "partition-of-unity")
     if np.shape(Nb) == (en,) and np.shape(dNb) == (dim, en):
         for l in range(en):
-            K.eq("second-point:N[%d]==closed-form" % l, Nb[l], N_ref(l, xb), "shape-values")
+            K.eq("second-point:N[%d]==closed-form" % l, Nb[l], N_ref(perm[l], xb), "shape-values")
             for e in range(dim):
-                K.eq("second-point:dN[%s,%d]==closed-form" % ("xyz"[e], l), dNb[e, l], dN_ref(l, e, xb), "shape-derivatives")
+                K.eq("second-point:dN[%s,%d]==closed-form" % ("xyz"[e], l), dNb[e, l], dN_ref(perm[l], e, xb), "shape-derivatives")
     if V.symbolic:
         # reported derivatives == exact derivative of the reported shape functions (term differentiation)
         from symx import diffz3
